@@ -8,6 +8,13 @@ mod generic;
 mod flow;
 mod band;
 mod recursive;
+mod sig_a;
+mod sig_b;
+mod sig_c;
+mod dtypes;
+mod uses_da;
+mod uses_db;
+mod uses_both;
 
 use consts::*;
 use generic::{Describe, Scale};
